@@ -28,6 +28,11 @@ Corners:
                   from ANOTHER metamodel that is in no resource and only registered (ResourceSet or global registry;
                   under its nsURI, an alias key, both, or an nsURI changed after registration); reloaded where that
                   metamodel is known the same way: same signature, targets are the very registered objects.
+      'idroot'  : instance documents whose ROOT objects carry ids (iD flag through the .ecore file; string and integer
+                  ids; declared by the root class or inherited): inner objects refer to their root, roots of a
+                  multi-root document to each other and to themselves; cross-loaded three ways against what was saved.
+      The structural signature also compares, on both sides, the DERIVED value `many` every typed element reports
+      (DERIVED_VIEWS, keys marked '~'), next to the stored bounds.
   correspondence (ties coq/Gen/EcoreMM.v, i.e. the translator's reading of pyecore/ecore.py, to the running library):
       (a) every row of the generated table against the live reflection of pyecore.ecore (names, kinds, types, bounds,
           containment, derived/transient, effective eOpposite),
@@ -1619,7 +1624,7 @@ def resave_scenarios(ctx, out):
     ecore()
     rng = common.rng_for(ctx.seed, 'C10:resave')
     thorough = ctx.tier == 'thorough'
-    n = 1000 if thorough else 130
+    n = 1000 if thorough else 110
     hard_stop = time.time() + (150 if thorough else 40)       # safety net only; the count decides
     stats, modes, seen = {}, {}, {}
     cases = trips_total = 0
@@ -2149,12 +2154,12 @@ def _count_foreign(dump, home, acc):
         walk(o, 0)
 
 
-def cross_load(src_mm, dst_mm, seed, tag, tmp, fails, stats=None, nper=2):
+def cross_load(src_mm, dst_mm, seed, tag, tmp, fails, stats=None, nper=2, gen=None):
     """a model over src_mm, saved against src_mm, loaded against dst_mm: the canonical dump of the model that was saved
     (classes by qualified package path)"""
     from pyecore.resources import URI
     try:
-        roots = gen_instances(src_mm, random.Random(seed), nper=nper)
+        roots = gen(src_mm, random.Random(seed)) if gen else gen_instances(src_mm, random.Random(seed), nper=nper)
     except Exception as e:
         fails.append({'construct': f'instantiate-{tag}', 'what': f'{type(e).__name__}: {e}'[:300]})
         return
@@ -2632,6 +2637,202 @@ def extmm_scenarios(ctx, out):
     out.coverage['extmm_repeat_failures_of_a_reported_kind'] = stats.get('repeat_failures', 0)
 
 
+# --------------------------------------------------------------------------- ids on the roots of an instance document
+#
+# The iD flag of an attribute travels through the .ecore file, and an object whose id is set is referred to by that id.
+# That also holds for the ROOT objects of a document: inner objects point back to their root, roots of a multi-root
+# document point to each other, a root points to itself.  The document saved against the original metamodel loads against
+# the reloaded one (and against a copy of the original, and the other way round) into the model that was saved.
+
+def gen_idroot_desc(rng, stats=None):
+    idtype = rng.choice(['ecore:EString', 'ecore:EString', 'ecore:EInt'])
+    root = _pk('org', 'http://verif/c10/ids/' + rng.choice(['a', 'b.c']), 'org')
+    sub = None
+    if rng.random() < 0.3:
+        sub = _pk('parts', root['nsURI'] + '/parts', 'parts')
+        root['subpackages'].append(sub)
+    inherited = rng.random() < 0.4
+    if inherited:
+        root['classifiers'].append(_cls('Named', abstract=True, features=[_attr('code', idtype, iD=True)]))
+    unit = _cls('Unit', supers=['Named'] if inherited else [],
+                features=([] if inherited else [_attr('code', idtype, iD=True)]) + [_attr('label', 'ecore:EString')])
+    part_id = rng.choice(['inherited', 'own', 'none']) if inherited else rng.choice(['own', 'none'])
+    part = _cls('Part', supers=['Named'] if part_id == 'inherited' else [],
+                features=([_attr('pid', idtype, iD=True)] if part_id == 'own' else []) + [_attr('size', 'ecore:EInt')])
+    ppath = ('parts/' if sub is not None else '') + 'Part'
+    unit['features'] += [_ref('parts', ppath, upper=-1, containment=True),
+                         _ref('reportsTo', 'Unit'), _ref('peers', 'Unit', upper=-1)]
+    if rng.random() < 0.5:
+        unit['features'].append(_ref('units', 'Unit', upper=-1, containment=True))
+    if rng.random() < 0.4:
+        unit['features'].append(_ref('chief', ppath))
+    part['features'] += [_ref('owner', 'Unit')]
+    if rng.random() < 0.5:
+        part['features'].append(_ref('watchers', 'Unit', upper=-1))
+    if rng.random() < 0.4:
+        part['features'].append(_ref('next', ppath))
+    root['classifiers'].append(unit)
+    (sub if sub is not None else root)['classifiers'].append(part)
+    if stats is not None:
+        k = f'id type {idtype[6:]}, declared {"in a super type" if inherited else "by the root class"}'
+        stats[k] = stats.get(k, 0) + 1
+    return root
+
+
+ID_TEXTS = ['HQ', 'U2', 'north', 'x-1', 'B_7', 'Zeta', 'a.b', 'r0', 'K', 'unit9', 'É1', 'p:q']
+ID_STATS = {}
+
+
+def gen_id_instances(mm, rng):
+    """1-3 root Units (ids mostly set) with Parts and nested Units; references to roots from inside, between roots, to
+    oneself; targets without id are referred to by position"""
+    by = {c.name: c for c in all_eclasses(mm)}
+    Unit, Part = by['Unit'], by['Part']
+    st = ID_STATS
+    ids = iter(rng.sample(ID_TEXTS, len(ID_TEXTS)))
+    num = iter(rng.sample(range(1, 500), 40))
+
+    def set_id(o, p):
+        f = next((a for a in o.eClass.eAllAttributes() if a.iD), None)
+        if f is not None and rng.random() < p:
+            try:
+                o.eSet(f, next(num) if f.eType.name == 'EInt' else next(ids))
+            except StopIteration:
+                return False
+            return True
+        return False
+    roots, units, parts, with_id = [], [], [], set()
+    for _ in range(rng.choice([1, 1, 2, 3])):
+        u = Unit()
+        st['roots'] = st.get('roots', 0) + 1
+        if set_id(u, 0.85):
+            st['roots with id'] = st.get('roots with id', 0) + 1
+            with_id.add(id(u))
+        if rng.random() < 0.6:
+            u.label = rng.choice(['main', 'two words', 'x'])
+        roots.append(u)
+        units.append(u)
+    has_units = Unit.findEStructuralFeature('units') is not None
+    for u in list(roots):
+        for _ in range(rng.randint(0, 3)):
+            q = Part()
+            set_id(q, 0.6)
+            q.size = rng.randint(0, 9)
+            u.parts.append(q)
+            parts.append(q)
+        if has_units and rng.random() < 0.5:
+            v = Unit()
+            set_id(v, 0.7)
+            u.units.append(v)
+            units.append(v)
+            for _ in range(rng.randint(0, 2)):
+                q = Part()
+                set_id(q, 0.6)
+                v.parts.append(q)
+                parts.append(q)
+
+    def to_root(x):
+        if x in roots:
+            st['references to a root'] = st.get('references to a root', 0) + 1
+            if id(x) in with_id:
+                st['references to a root by id'] = st.get('references to a root by id', 0) + 1
+        return x
+    for q in parts:
+        if rng.random() < 0.8:
+            q.owner = to_root(rng.choice(roots if rng.random() < 0.7 else units))
+        if Part.findEStructuralFeature('watchers') is not None and rng.random() < 0.5:
+            for x in rng.sample(units, rng.randint(1, min(2, len(units)))):
+                q.watchers.append(to_root(x))
+        if Part.findEStructuralFeature('next') is not None and rng.random() < 0.4:
+            q.next = rng.choice(parts)
+    for u in units:
+        if rng.random() < 0.6:
+            u.reportsTo = to_root(rng.choice(roots if rng.random() < 0.7 else units))      # possibly itself
+        if rng.random() < 0.5:
+            for x in rng.sample(units, rng.randint(1, min(3, len(units)))):
+                u.peers.append(to_root(x))
+        if parts and Unit.findEStructuralFeature('chief') is not None and rng.random() < 0.5:
+            u.chief = rng.choice(parts)
+    return roots
+
+
+def idroot_case(desc, inst_seed, tmp, stats=None):
+    """-> list of {'construct','what'}"""
+    fails = []
+    os.makedirs(tmp, exist_ok=True)
+    orig = build(desc)
+    sig0 = signature_all(orig)
+    try:
+        reloaded, path = save_reload(orig, tmp)
+    except Exception as e:
+        return [{'construct': 'save-or-load-raises', 'what': f'{type(e).__name__}: {e}'[:300]}]
+    sdiffs = sig_diff(sig0, signature_all(reloaded))
+    if sdiffs:
+        lab, pair, p, a, b = sdiffs[0]
+        fails.append({'construct': 'signature-' + lab,
+                      'what': f'{pair[0]}.{pair[1]} at {p}: original {a} / reloaded {b} ({len(sdiffs)} place(s))'})
+    cross_load(orig, reloaded, inst_seed, 'original-to-reloaded', tmp, fails, stats, gen=gen_id_instances)
+    cross_load(orig, build(desc), inst_seed + 2, 'original-to-original', tmp, fails, stats, gen=gen_id_instances)
+    cross_load(reloaded, build(desc), inst_seed + 1, 'reloaded-to-original', tmp, fails, stats, gen=gen_id_instances)
+    return fails
+
+
+def idroot_scenarios(ctx, out):
+    """Scenario family 'idroot' (own PRNG stream)."""
+    ecore()
+    rng = common.rng_for(ctx.seed, 'C10:idroot')
+    thorough = ctx.tier == 'thorough'
+    n = 1500 if thorough else 120
+    hard_stop = time.time() + (120 if thorough else 20)       # safety net only; the count decides
+    stats, kinds, seen = {}, {}, {}
+    ID_STATS.clear()
+    cases = 0
+    tmp_root = tempfile.mkdtemp(prefix='c10i_', dir=scratch())
+    try:
+        for i in range(n):
+            if time.time() > hard_stop:
+                break
+            desc = gen_idroot_desc(rng, kinds)
+            inst_seed = rng.randrange(1 << 30)
+            tmp = os.path.join(tmp_root, f'i{i}')
+            try:
+                fails = idroot_case(desc, inst_seed, tmp, stats)
+            finally:
+                shutil.rmtree(tmp, ignore_errors=True)
+            cases += 1
+            for f in fails:
+                if f['construct'] in seen:
+                    stats['repeat_failures'] = stats.get('repeat_failures', 0) + 1
+                    continue
+                seen[f['construct']] = True
+                keep = dict(ID_STATS)
+                small = shrink_enum_desc(desc, inst_seed, f['construct'], max_runs=100 if thorough else 30,
+                                         case_fn=idroot_case)
+                tmp = tempfile.mkdtemp(prefix='c10i_', dir=scratch())
+                try:
+                    again = [g for g in idroot_case(small, inst_seed, tmp) if g['construct'] == f['construct']]
+                except Exception:
+                    again = []
+                finally:
+                    shutil.rmtree(tmp, ignore_errors=True)
+                ID_STATS.clear()
+                ID_STATS.update(keep)
+                what = again[0]['what'] if again else f['what']
+                out.fail({'property': 'C10', 'clause': 'ids-on-roots', 'construct': f['construct']},
+                         f'ids-on-roots/{f["construct"]}: {what}',
+                         {'scenario': 'idroot', 'seed': ctx.seed, 'tier': ctx.tier, 'index': i,
+                          'desc': small if again else desc, 'inst_seed': inst_seed,
+                          'history': [['id-metamodel', i], ['check', f['construct']]]})
+    finally:
+        shutil.rmtree(tmp_root, ignore_errors=True)
+    out.coverage['idroot_cases'] = cases
+    out.coverage['idroot_metamodels'] = dict(sorted(kinds.items()))
+    out.coverage['idroot_instance_documents_cross_loaded'] = stats.get('docs', 0)
+    out.coverage['idroot_instance_objects'] = stats.get('objects', 0)
+    out.coverage['idroot_documents'] = dict(sorted(ID_STATS.items()))
+    out.coverage['idroot_repeat_failures_of_a_reported_kind'] = stats.get('repeat_failures', 0)
+
+
 # --------------------------------------------------------------------------- run / replay
 
 def sig_of(f):
@@ -2694,7 +2895,7 @@ def run(ctx, out):
     ecore()
     thorough = ctx.tier == 'thorough'
     t_start = time.time()
-    budget = 420 if thorough else 28
+    budget = 420 if thorough else 18
     ncases = 4000 if thorough else 600
     stats = {'nondefault': {}}
     rng = ctx.rng
@@ -2836,11 +3037,12 @@ def run(ctx, out):
         'time_budget_s': budget,
     })
     # --- scenario families with their own PRNG streams (replayed through common.scenario_replay)
-    for fam in (resave_scenarios, enumlit_scenarios, nsprefix_scenarios, extmm_scenarios):
+    for fam in (resave_scenarios, enumlit_scenarios, nsprefix_scenarios, extmm_scenarios, idroot_scenarios):
         fam(ctx, out)
     namesake_witness_cases(ctx, out)
     out.coverage['evaluations'] += out.coverage.get('resave_cases', 0) + out.coverage.get('enumlit_cases', 0) \
-        + out.coverage.get('nsprefix_cases', 0) + out.coverage.get('extmm_cases', 0)
+        + out.coverage.get('nsprefix_cases', 0) + out.coverage.get('extmm_cases', 0) \
+        + out.coverage.get('idroot_cases', 0)
     out.coverage['rule'] += ('; plus one edit-and-resave case (a generated metamodel edited by a random refactoring '
                              'history and saved 3-4 times through one resource object, each save reloaded and compared) '
                              'and one enumeration case (literals with display strings: .ecore trip, instance documents '
@@ -2869,7 +3071,8 @@ def replay(ctx, rep):
     sig = rep.get('signature', {})
     if case.get('scenario'):
         return common.scenario_replay(ctx, rep, {'resave': resave_scenarios, 'enumlit': enumlit_scenarios,
-                                                'nsprefix': nsprefix_scenarios, 'extmm': extmm_scenarios})
+                                                'nsprefix': nsprefix_scenarios, 'extmm': extmm_scenarios,
+                                                'idroot': idroot_scenarios})
     if case.get('kind') == 'namesake-witness':
         tmp = tempfile.mkdtemp(prefix='c10p_', dir=scratch())
         try:
